@@ -1270,6 +1270,7 @@ def run(eng, rep):
                 "guard present for each documented invalid-argument class (frozen table, matched on normalised conditions); "
                 "exit-code registry and parameter registry agreement code<->code<->docs (T9); unknown key => ValueError (T2); "
                 "inventory of explicit raises reachable from solve (T1); exit_info non-None at every run exit (T3).")
+    rep.explain("Also decided: definite assignment of every local read in functions reachable from solve, aware of the first-iteration idiom `if i == start:` (C07-11, frozen exceptions with their premises re-checked); the package's own parameter updates are guarded so that they cannot be second updates (truth-table entailment for flags, C07-10); type validators test the value they were given (C07-5b); the restart geometry loop stays inside its list (sibling consistency, C07-12); the asserted precondition of the coordinate initialiser is established by solve for the npt of every run (C07-13); single-parameter thresholds and option-vs-argument contradictions validated in solve (C07-3 rows).")
     rep.not_decided += ["absence of implicit exceptions raised inside NumPy/SciPy calls for every documented input",
                         "termination of the main loop (structural part: C18-5)"]
     rule_call_conformance(eng, rep)
